@@ -24,15 +24,34 @@ func zzHas(errs []error, e error) bool {
 // Kill / Stop / IsDone+Err on one scope (plain or isolated) under every
 // schedule with at most P preemptions: no call panics, every appended error
 // is retained, and the done signal fires.
-func ZZVerifC12Signal() {
-	nd.Schedule(nd.Param("P", 2))
+func ZZVerifC12Signal() { zzSignal(nd.Param("P", 2), nd.Param("G", 2), 0, 2) }
+
+// ZZVerifC12DoneParent: the same for an isolated scope whose parent is
+// already stopped or killed, or is stopped concurrently: the watcher
+// goroutine of the isolated scope then signals it too, racing with the
+// callers.
+func ZZVerifC12DoneParent() { zzSignal(nd.Param("DP", 2), nd.Param("DG", 1), 2, 3) }
+
+func zzSignal(pBound, g, firstKind, nKinds int) {
+	nd.Schedule(pBound)
 	var s app.ContextScope
-	if nd.Choose("kind", 2) == 0 {
+	// 0 plain; isolated scope of a parent that is 1 live, 2 stopped before,
+	// 3 killed before, 4 stopped concurrently
+	kind := firstKind + nd.Choose("kind", nKinds)
+	var parent app.ContextScope
+	switch kind {
+	case 0:
 		s = New()
-	} else {
-		s = NewIsolated(New())
+	default:
+		parent = New()
+		if kind == 2 {
+			parent.Stop()
+		}
+		if kind == 3 {
+			parent.Kill()
+		}
+		s = NewIsolated(parent)
 	}
-	g := nd.Param("G", 2)
 	errs := make([]error, g)
 	acts := make([]int, g)
 	for i := 0; i < g; i++ {
@@ -40,6 +59,13 @@ func ZZVerifC12Signal() {
 		acts[i] = nd.IntRange("act", 0, 3)
 	}
 	var wg sync.WaitGroup
+	if kind == 4 {
+		wg.Add(1)
+		go func() {
+			defer wg.Done()
+			parent.Stop()
+		}()
+	}
 	for i := 0; i < g; i++ {
 		wg.Add(1)
 		go func(i int) {
@@ -59,6 +85,8 @@ func ZZVerifC12Signal() {
 		}(i)
 	}
 	wg.Wait()
+	// let the watcher goroutine of an isolated scope react to its parent
+	nd.Quiesce()
 	want := 0
 	for i := 0; i < g; i++ {
 		switch acts[i] {
@@ -70,13 +98,22 @@ func ZZVerifC12Signal() {
 			nd.Assert(zzHas(s.Errors(), context.Canceled), "C12/kill-recorded")
 		}
 	}
-	nd.Assert(len(s.Errors()) == want, "C12/error-count")
+	if kind == 3 {
+		// the watcher may add the parent's kill once
+		nd.Assert(len(s.Errors()) == want || len(s.Errors()) == want+1, "C12/error-count")
+	} else {
+		nd.Assert(len(s.Errors()) == want, "C12/error-count")
+	}
 	nd.Assert(s.IsDone(), "C12/done-fired")
-	nd.Assert((s.Err() != nil) == (want > 0), "C12/err-iff-errors")
+	nd.Assert((s.Err() != nil) == (len(s.Errors()) > 0), "C12/err-iff-errors")
 	select {
 	case <-s.Done():
 	default:
 		nd.Assert(false, "C12/done-channel-closed")
 	}
-	nd.Reach("C12/signal-end")
+	if firstKind == 0 {
+		nd.Reach("C12/signal-end")
+	} else {
+		nd.Reach("C12/doneparent-end")
+	}
 }
